@@ -64,6 +64,7 @@ func (e *Engine) VerifyFunc(fn *ssa.Function, ct *FuncContract) (obls []*Obligat
 		}
 	}
 	fr.args = args
+	c.lmFromFreeVars(fr)
 	c.entry = st.clone()
 	inputs := c.inputSpecs(fn, args, st)
 	defer func() {
@@ -136,13 +137,26 @@ func (e *Engine) VerifyFunc(fn *ssa.Function, ct *FuncContract) (obls []*Obligat
 			c.prove(fmt.Sprintf("reach.ret%d", k+1), fmt.Sprintf("return path %d (%s) is reachable: the assumptions made on the way are consistent (this query must not be UNSAT)", k+1, e.pos(rp.pos)), rp.st.pc, False, nil)
 			c.obls[len(c.obls)-1].Kind = "vacuity"
 		}
+		ensuresHit := map[int]bool{}
 		if len(fr.retVals) > 1 && ct.Opts["ensures"] != "merged" {
+			defer func() {
+				for i, en := range ct.Ensures {
+					if !ensuresHit[i] {
+						c.eng.Errors = append(c.eng.Errors, "postcondition applies to no return path: "+en.Src)
+					}
+				}
+			}()
 			for k, rp := range fr.retVals {
 				sc2 := c.contractScope(fn, ct, fv, args, rp.st, entry, rp.val)
 				sc2.fr = fr
 				sc2.exitOf = rp.block
 				for i, en := range ct.Ensures {
-					g := c.translateBool(sc2, en.E)
+					// a clause may talk about locals that exist only on some return paths; it must apply to at least one
+					g := c.tryTranslate(sc2, en.E)
+					if g == nil {
+						continue
+					}
+					ensuresHit[i] = true
 					c.prove(fmt.Sprintf("ensures.%s@ret%d", clauseLabel(en, i), k+1), fmt.Sprintf("postcondition on return path %d (%s): %s", k+1, e.pos(rp.pos), en.Src), rp.st.pc, g, nil)
 				}
 			}
